@@ -688,42 +688,10 @@ Proof.
   apply forallb_forall. intros y Hy. apply in_rev in Hy. rewrite forallb_forall in Hb. now apply Hb.
 Qed.
 
-(* the remainder of a suffix after its leading run of hexadecimal letters (the exponent group of the hexadecimal pattern takes
-   HEXADECIMAL digits, so 0x1p3f reads `f` as an exponent digit) *)
-Definition hexfloat_sfx_rem (sfx : str) : str := snd (span is_hex sfx).
-Definition hexfloat_sfx_bad (sfx : str) : bool := match sfx with c :: _ :: _ => chr_in c (s "fFdD") | _ => false end.
-
-(* the recorded finding C11-hexfloat-hex-suffix on the suffix alone: outside it the remainder is again a suffix of the table
-   (the condition the theorem needs is weaker: 0x1p3dl, 0x1p3df are accepted by the tool although the shape flags them) *)
-Lemma hexfloat_sfx_guard : forallb (fun sfx => hexfloat_sfx_bad sfx || str_in (hexfloat_sfx_rem sfx) float_suffixes) float_suffixes = true.
-Proof. vm_compute. reflexivity. Qed.
-Lemma hexfloat_sfx_guard_ok sfx : str_in sfx float_suffixes = true -> hexfloat_sfx_bad sfx = false ->
-  str_in (hexfloat_sfx_rem sfx) float_suffixes = true.
-Proof.
-  intros Hs Hb. apply str_in_In in Hs. pose proof hexfloat_sfx_guard as G. rewrite forallb_forall in G. specialize (G _ Hs).
-  rewrite Hb in G. exact G.
-Qed.
-
 Section HexFloats.
   Variable uw ud : N -> bool.
 
   Definition is_pP (c : N) : bool := ((c =? 112) || (c =? 80))%N.
-
-  Lemma exp_match_run E (digit : N -> bool) q e sgn d0 dr T :
-    in_set E e = true -> sign_ok sgn = true -> ascii_digit d0 = true -> forallb digit (d0 :: dr) = true ->
-    (forall c, ascii_digit c = true \/ in_set [43; 45]%N c = true -> in_set E c = false) ->
-    stops digit T = true ->
-    exp_match E digit q (e :: sgn ++ (d0 :: dr) ++ T) = Some (e :: sgn ++ d0 :: dr, T).
-  Proof.
-    intros He Hsg Hd0 Hdd HE Hst. unfold exp_match. rewrite He.
-    assert (Esp : span (in_set E) (e :: sgn ++ (d0 :: dr) ++ T) = ([e], sgn ++ (d0 :: dr) ++ T)).
-    { cbn [span]. rewrite He. rewrite span_stop; [reflexivity|].
-      destruct sgn as [|c [|? ?]]; try discriminate; cbn [app stops]; rewrite HE; auto. }
-    rewrite Esp. destruct sgn as [|c [|? ?]]; try discriminate; cbn [app sign_ok] in *.
-    - replace (in_set [43; 45]%N d0) with false by (unfold ascii_digit in Hd0; cbn [in_set existsb]; lia).
-      change (d0 :: dr ++ T) with ((d0 :: dr) ++ T). rewrite (span_app_stop digit (d0 :: dr) T Hdd Hst). reflexivity.
-    - rewrite Hsg. change (d0 :: dr ++ T) with ((d0 :: dr) ++ T). rewrite (span_app_stop digit (d0 :: dr) T Hdd Hst). reflexivity.
-  Qed.
 
   Lemma pP_not_digit_sign c : ascii_digit c = true \/ in_set [43; 45]%N c = true -> in_set [112; 80]%N c = false.
   Proof. unfold ascii_digit. cbn [in_set existsb]. lia. Qed.
@@ -731,112 +699,92 @@ Section HexFloats.
   Lemma hexs_ishex hs : forallb is_hex hs = true -> forallb (ishex ud) hs = true.
   Proof. intros H. apply forallb_forall. intros y Hy. rewrite forallb_forall in H. now apply hex_ishex, H. Qed.
 
-  (* 0[xX] hex-digits [. hex-digits] [pP] [sign] digits suffix: integer part and (when there is a dot) fraction non-empty -
-     this excludes exactly the finding C11-hexfloat-empty-part; the suffix condition is implied by the negation of the
-     finding C11-hexfloat-hex-suffix (hexfloat_sfx_guard_ok) *)
-  Theorem accept_hexfloat_partial : forall xc hi frac p sgn d0 ed sfx rest,
-    is_xX xc = true -> forallb is_hex hi = true -> hi <> [] ->
-    (frac = [] \/ exists fp, frac = 46%N :: fp /\ forallb is_hex fp = true /\ fp <> []) ->
-    is_pP p = true -> sign_ok sgn = true -> forallb ascii_digit (d0 :: ed) = true ->
-    str_in sfx float_suffixes = true -> str_in (hexfloat_sfx_rem sfx) float_suffixes = true -> delim rest = true ->
-    lex_one_ok_u uw ud (s "CONSTANT") ((48%N :: xc :: hi ++ frac) ++ (p :: sgn ++ d0 :: ed) ++ sfx) rest.
+  (* the digits of a hexadecimal float: H+ [ . H* ]  or  . H+   (since the repair of the findings hexfloat-empty-part and
+     hexfloat-hex-suffix: fraction or integer part may be empty, not both; the exponent digits are decimal, so every suffix
+     of the table is allowed) *)
+  Definition hexfloat_digits (hi frac : str) : Prop :=
+    forallb is_hex hi = true /\
+    ((frac = [] /\ hi <> []) \/ (exists fp, frac = 46%N :: fp /\ forallb is_hex fp = true /\ (hi <> [] \/ fp <> []))).
+
+  Theorem accept_hexfloat : forall xc hi frac p sgn ed sfx rest,
+    is_xX xc = true -> hexfloat_digits hi frac ->
+    is_pP p = true -> sign_ok sgn = true -> forallb ascii_digit ed = true -> ed <> [] ->
+    str_in sfx float_suffixes = true -> delim rest = true ->
+    lex_one_ok_u uw ud (s "CONSTANT") ((48%N :: xc :: hi ++ frac) ++ (p :: sgn ++ ed) ++ sfx) rest.
   Proof.
-    intros xc hi frac p sgn d0 ed sfx rest Hx Hhi Hne Hfrac Hp Hsg Hed Hs Hrem Hdl.
-    pose proof (fsuffix_ok sfx Hs) as Hso. assert (Hsa : forallb alnum sfx = true) by (unfold fsfx_ok in Hso; apply andb_true_iff in Hso as [Hso' _]; exact Hso').
-    unfold hexfloat_sfx_rem in Hrem. destruct (span is_hex sfx) as [hx rem] eqn:Esp. cbn [snd] in Hrem.
-    destruct (span_spec _ _ _ _ Esp) as (Esfx & Hhx & Hstrem).
-    pose proof (fsuffix_ok rem Hrem) as Hsorem. assert (Hra : forallb alnum rem = true) by (unfold fsfx_ok in Hsorem; apply andb_true_iff in Hsorem as [Hso' _]; exact Hso').
-    assert (Hd0 : ascii_digit d0 = true) by (cbn [forallb] in Hed; apply andb_true_iff in Hed as [Hed' _]; exact Hed').
-    clear Hso Hsorem. remember float_suffixes as FS eqn:EFS.
-    set (const := 48%N :: xc :: hi ++ frac). set (expo := p :: sgn ++ (d0 :: ed) ++ hx).
-    assert (Eww : const ++ (p :: sgn ++ d0 :: ed) ++ sfx = const ++ expo ++ rem).
-    { unfold const, expo. rewrite Esfx. cbn [app]. rewrite <- !app_assoc. cbn [app]. rewrite <- ?app_assoc. reflexivity. }
-    rewrite Eww.
-    (* the tail after the exponent run *)
-    assert (Hst : stops (ishex ud) (rem ++ rest) = true).
-    { destruct rem as [|r0 rem']; cbn [app].
-      - destruct rest as [|c r]; [reflexivity|]. cbn [delim stops] in *. unfold ishex. rewrite (delimc_isd ud c Hdl).
-        unfold delimc, alnum, ascii_alpha, ascii_digit in Hdl. lia.
-      - cbn [stops] in *. cbn [forallb] in Hra. unfold ishex, isd. unfold is_hex, is_dec in Hstrem. unfold alnum, ascii_alpha, ascii_digit in Hra.
-        replace (r0 <? 128)%N with true by lia. unfold ascii_digit. lia. }
-    assert (Hrun : forallb (ishex ud) ((d0 :: ed) ++ hx) = true).
-    { rewrite forallb_app, (hexs_ishex hx Hhx), andb_true_r. apply forallb_forall. intros y Hy. rewrite forallb_forall in Hed.
-      unfold ishex. now rewrite (digit_isd ud y (Hed y Hy)). }
-    assert (Hexp : exp_match [112; 80]%N (ishex ud) true (expo ++ rem ++ rest) = Some (expo, rem ++ rest)).
-    { assert (Eq : expo ++ rem ++ rest = p :: sgn ++ (d0 :: ed ++ hx) ++ rem ++ rest).
-      { unfold expo. cbn [app]. rewrite <- !app_assoc. cbn [app]. rewrite <- ?app_assoc. reflexivity. }
-      rewrite Eq, (exp_match_run [112; 80]%N (ishex ud) true p sgn d0 (ed ++ hx) (rem ++ rest)); try assumption.
-      - reflexivity.
-      - unfold is_pP in Hp. cbn [in_set existsb]. clear - Hp. lia.
-      - apply pP_not_digit_sign. }
-    assert (Hsr : suffix_run uw ud (rem ++ rest) = rem) by now apply suffix_run_ok.
+    intros xc hi frac p sgn ed sfx rest Hx [Hhi Hfrac] Hp Hsg Hed Hne Hs Hdl.
+    pose proof (fsuffix_ok sfx Hs) as Hso.
+    assert (Hsa : forallb alnum sfx = true) by (unfold fsfx_ok in Hso; apply andb_true_iff in Hso as [Hso' _]; exact Hso').
+    pose proof (ftail_ok_app ud sfx rest Hso Hdl) as HT.
+    assert (Hsr : suffix_run uw ud (sfx ++ rest) = sfx) by now apply suffix_run_ok.
+    assert (HpE : in_set [112; 80]%N p = true) by (clear - Hp; unfold is_pP in Hp; cbn [in_set existsb]; lia).
     assert (Hp' : p = 112%N \/ p = 80%N) by (clear - Hp; unfold is_pP in Hp; lia).
-    assert (Hfh : fhex_match uw ud (const ++ expo ++ rem ++ rest) = Some (const, expo, rem)).
-    { unfold const. cbn [app]. unfold fhex_match. lazy beta iota.
-      assert (E1 : span (in_set [120; 88]%N) (xc :: (hi ++ frac) ++ expo ++ rem ++ rest) = ([xc], (hi ++ frac) ++ expo ++ rem ++ rest)).
-      { change (xc :: (hi ++ frac) ++ expo ++ rem ++ rest) with ([xc] ++ ((hi ++ frac) ++ expo ++ rem ++ rest)).
-        apply span_app_stop; [clear - Hx; unfold is_xX in Hx; cbn [forallb in_set existsb]; lia|].
-        destruct hi as [|h hi']; [congruence|]. cbn [app stops]. cbn [forallb] in Hhi. apply andb_true_iff in Hhi as [Hh _].
-        now rewrite (hex_not_x h Hh). }
-      rewrite E1. cbn [nonnil]. rewrite <- app_assoc.
-      assert (En : nonnil hi = true) by (destruct hi; [congruence|reflexivity]).
-      destruct Hfrac as [->|(fp & -> & Hfp & Hfne)].
-      - cbn [app]. rewrite (span_app_stop (ishex ud) hi (expo ++ rem ++ rest) (hexs_ishex hi Hhi)).
-        2: { unfold expo. cbn [app stops]. unfold ishex, isd, ascii_digit. destruct Hp' as [-> | ->]; reflexivity. }
-        rewrite En. rewrite app_nil_r.
-        unfold expo at 1. cbn [app]. destruct Hp' as [-> | ->]; lazy beta iota; fold expo; rewrite Hexp, Hsr; reflexivity.
-      - cbn [app]. rewrite (span_app_stop (ishex ud) hi (46%N :: fp ++ expo ++ rem ++ rest) (hexs_ishex hi Hhi) eq_refl).
-        rewrite En. lazy beta iota.
-        rewrite (span_app_stop (ishex ud) fp (expo ++ rem ++ rest) (hexs_ishex fp Hfp)).
-        2: { unfold expo. cbn [app stops]. unfold ishex, isd, ascii_digit. destruct Hp' as [-> | ->]; reflexivity. }
-        assert (Enf : nonnil fp = true) by (destruct fp; [congruence|reflexivity]). rewrite Enf.
-        rewrite Hexp, Hsr. rewrite <- ?app_assoc. reflexivity. }
+    assert (Hxc : xc = 120%N \/ xc = 88%N) by (clear - Hx; unfold is_xX in Hx; lia).
     assert (Hxa : alnum xc = true) by (clear - Hx; unfold is_xX in Hx; unfold alnum, ascii_digit, ascii_alpha; lia).
+    clear Hso. remember float_suffixes as FS eqn:EFS.
+    set (const := 48%N :: xc :: hi ++ frac). set (expo := p :: sgn ++ ed).
+    assert (Hexp : exp_match [112; 80]%N (isd ud) false (expo ++ sfx ++ rest) = Some (expo, sfx ++ rest)).
+    { unfold expo. cbn [app]. rewrite <- app_assoc.
+      apply (exp_match_ok [112; 80]%N (isd ud) false p sgn ed (sfx ++ rest) HpE Hsg Hed Hne (digit_isd ud) pP_not_digit_sign).
+      now apply ftail_stops_isd. }
+    assert (Hstx : stops (ishex ud) (expo ++ sfx ++ rest) = true).
+    { unfold expo. cbn [app stops]. unfold ishex, isd, ascii_digit. destruct Hp' as [-> | ->]; reflexivity. }
+    assert (Hfh : fhex_match uw ud (const ++ expo ++ sfx ++ rest) = Some (const, expo, sfx)).
+    { unfold const. cbn [app]. unfold fhex_match. lazy beta iota.
+      assert (Hnx : forall R, stops (in_set [120; 88]%N) ((hi ++ frac) ++ R) = true \/ True) by (intros; now right).
+      assert (E1 : span (in_set [120; 88]%N) (xc :: (hi ++ frac) ++ expo ++ sfx ++ rest) = ([xc], (hi ++ frac) ++ expo ++ sfx ++ rest)).
+      { change (xc :: (hi ++ frac) ++ expo ++ sfx ++ rest) with ([xc] ++ ((hi ++ frac) ++ expo ++ sfx ++ rest)).
+        apply span_app_stop; [destruct Hxc as [-> | ->]; reflexivity|].
+        destruct hi as [|h hi'].
+        - destruct Hfrac as [[_ Habs]|(fp & -> & _ & _)]; [congruence|reflexivity].
+        - cbn [app stops]. cbn [forallb] in Hhi. apply andb_true_iff in Hhi as [Hh _]. now rewrite (hex_not_x h Hh). }
+      rewrite E1. cbn [nonnil]. rewrite <- app_assoc.
+      destruct Hfrac as [[-> Hne1]|(fp & -> & Hfp & Hne1)].
+      - (* H+ exponent *)
+        cbn [app]. rewrite (span_app_stop (ishex ud) hi (expo ++ sfx ++ rest) (hexs_ishex hi Hhi) Hstx).
+        assert (En : nonnil hi = true) by (destruct hi; [congruence|reflexivity]). rewrite En. rewrite app_nil_r.
+        unfold expo at 1. cbn [app]. destruct Hp' as [-> | ->]; lazy beta iota; fold expo; rewrite Hexp, Hsr; reflexivity.
+      - cbn [app]. rewrite (span_app_stop (ishex ud) hi (46%N :: fp ++ expo ++ sfx ++ rest) (hexs_ishex hi Hhi) eq_refl).
+        lazy beta iota. rewrite (span_app_stop (ishex ud) fp (expo ++ sfx ++ rest) (hexs_ishex fp Hfp) Hstx).
+        destruct hi as [|h hi'].
+        + (* . H+ *)
+          destruct Hne1 as [Habs|Hfne]; [congruence|]. cbn [nonnil app].
+          assert (Enf : nonnil fp = true) by (destruct fp; [congruence|reflexivity]). rewrite Enf.
+          rewrite Hexp, Hsr. reflexivity.
+        + (* H+ . H* *)
+          cbn [nonnil]. rewrite Hexp, Hsr. rewrite <- ?app_assoc. reflexivity. }
     subst FS.
-    apply (accept_float_from_match uw ud 2%nat const expo rem rest 48%N (xc :: (hi ++ frac) ++ expo ++ rem ++ rest)); try assumption; try reflexivity.
+    apply (accept_float_from_match uw ud 2%nat const expo sfx rest 48%N (xc :: (hi ++ frac) ++ expo ++ sfx ++ rest)); try assumption; try reflexivity.
     - unfold const. cbn [app]. now rewrite <- !app_assoc.
     - rewrite <- !app_assoc in *.
-      assert (Efe : fexp_match uw ud (const ++ expo ++ rem ++ rest) = None).
-      { unfold const. change ((48%N :: xc :: hi ++ frac) ++ expo ++ rem ++ rest) with ([48%N] ++ (xc :: (hi ++ frac) ++ expo ++ rem ++ rest)).
-        apply fexp_none; [reflexivity| |]; clear - Hx; unfold is_xX in Hx; cbn [stops in_set existsb]; unfold isd, ascii_digit; [|lia].
-        replace (xc <? 128)%N with true by lia. lia. }
-      assert (Eff : ffrac_match uw ud (const ++ expo ++ rem ++ rest) = None).
-      { unfold const. change ((48%N :: xc :: hi ++ frac) ++ expo ++ rem ++ rest) with ([48%N] ++ (xc :: (hi ++ frac) ++ expo ++ rem ++ rest)).
-        apply ffrac_none; [reflexivity| |]; clear - Hx; unfold is_xX in Hx; cbn [stops]; unfold isd, ascii_digit; [|lia].
-        replace (xc <? 128)%N with true by lia. lia. }
+      assert (Efe : fexp_match uw ud (const ++ expo ++ sfx ++ rest) = None).
+      { unfold const. change ((48%N :: xc :: hi ++ frac) ++ expo ++ sfx ++ rest) with ([48%N] ++ (xc :: (hi ++ frac) ++ expo ++ sfx ++ rest)).
+        apply fexp_none; [reflexivity| |]; destruct Hxc as [-> | ->]; reflexivity. }
+      assert (Eff : ffrac_match uw ud (const ++ expo ++ sfx ++ rest) = None).
+      { unfold const. change ((48%N :: xc :: hi ++ frac) ++ expo ++ sfx ++ rest) with ([48%N] ++ (xc :: (hi ++ frac) ++ expo ++ sfx ++ rest)).
+        apply ffrac_none; [reflexivity| |]; destruct Hxc as [-> | ->]; reflexivity. }
       rewrite Efe, Eff, Hfh. reflexivity.
-    - cbn [Nat.eqb]. unfold expo. cbn [nonempty andb].
-      assert (Hok : exp_ok_in ud [112; 80]%N (p :: sgn ++ (d0 :: ed) ++ hx) = true).
-      { unfold exp_ok_in. replace (in_set [112; 80]%N p) with true by (clear - Hp; unfold is_pP in Hp; cbn [in_set existsb]; lia).
-        pose proof (digit_isd ud d0 Hd0) as Hi.
-        destruct sgn as [|c [|? ?]]; try discriminate; cbn [app sign_ok] in *.
-        - replace (in_set [45; 43]%N d0) with false by (clear - Hd0; unfold ascii_digit in Hd0; cbn [in_set existsb]; lia). now rewrite Hi.
-        - replace (in_set [45; 43]%N c) with true by (clear - Hsg; cbn [in_set existsb] in *; lia). now rewrite Hi. }
-      now rewrite Hok.
+    - cbn [Nat.eqb]. unfold expo. cbn [nonempty andb]. now rewrite (exp_ok_in_ok ud [112; 80]%N p sgn ed HpE Hsg Hed Hne).
     - unfold expo. cbn [nonempty negb]. now rewrite !andb_false_r.
     - unfold const.
-      assert (Hxc : xc = 120%N \/ xc = 88%N) by (clear - Hx; unfold is_xX in Hx; lia).
       rewrite (strip_hex_const _ xc (hi ++ frac)); [destruct Hxc as [E|E]; rewrite E; reflexivity|reflexivity|destruct Hxc as [E|E]; rewrite E; reflexivity|].
       apply forallb_forall. intros y Hy. apply in_app_or in Hy as [Hy|Hy].
       + rewrite forallb_forall in Hhi. specialize (Hhi y Hy). clear - Hhi. unfold is_hex, is_dec in Hhi.
         change (hexadecimal_digits ++ s ".") with (s "0123456789abcdefABCDEF."). cbn [chr_in existsb s List.map list_ascii_of_string N_of_ascii N_of_digits]. lia.
-      + destruct Hfrac as [->|(fp & -> & Hfp & _)]; [destruct Hy|]. destruct Hy as [<-|Hy]; [reflexivity|].
+      + destruct Hfrac as [[-> _]|(fp & -> & Hfp & _)]; [destruct Hy|]. destruct Hy as [<-|Hy]; [reflexivity|].
         rewrite forallb_forall in Hfp. specialize (Hfp y Hy). clear - Hfp. unfold is_hex, is_dec in Hfp.
         change (hexadecimal_digits ++ s ".") with (s "0123456789abcdefABCDEF."). cbn [chr_in existsb s List.map list_ascii_of_string N_of_ascii N_of_digits]. lia.
     - (* all characters plain *)
-      unfold const, expo. rewrite !forallb_app. cbn [forallb]. rewrite !forallb_app.
       assert (H1 : forallb okc hi = true) by (apply okc_alnums, forallb_forall; intros y Hy; rewrite forallb_forall in Hhi; now apply hex_alnum, Hhi).
       assert (H2 : forallb okc frac = true).
-      { destruct Hfrac as [->|(fp & -> & Hfp & _)]; [reflexivity|]. cbn [forallb]. apply andb_true_iff. split; [reflexivity|].
+      { destruct Hfrac as [[-> _]|(fp & -> & Hfp & _)]; [reflexivity|]. cbn [forallb]. apply andb_true_iff. split; [reflexivity|].
         apply okc_alnums, forallb_forall. intros y Hy. rewrite forallb_forall in Hfp. now apply hex_alnum, Hfp. }
       assert (H3 : forallb okc sgn = true).
       { destruct sgn as [|c [|? ?]]; try discriminate; [reflexivity|]. cbn [sign_ok in_set existsb forallb] in Hsg |- *. clear - Hsg. unfold okc. cbn [chr_in existsb]. lia. }
-      assert (H4 : forallb okc (d0 :: ed) = true) by now apply okc_digits.
-      assert (H5 : forallb okc hx = true) by (apply okc_alnums, forallb_forall; intros y Hy; rewrite forallb_forall in Hhx; now apply hex_alnum, Hhx).
+      assert (H4 : forallb okc ed = true) by now apply okc_digits.
       assert (H6 : okc p = true) by (apply alnum_okc; clear - Hp; unfold is_pP in Hp; unfold alnum, ascii_alpha, ascii_digit; lia).
-      cbn [forallb] in H4. apply andb_true_iff in H4 as [H4a H4b].
-      repeat (rewrite ?forallb_app; cbn [forallb app]).
-      rewrite ?(alnum_okc xc Hxa), ?H1, ?H2, ?H3, ?H4a, ?H4b, ?H5, ?H6, ?(okc_alnums rem Hra). reflexivity.
+      unfold const, expo. repeat (rewrite ?forallb_app; cbn [forallb app]).
+      rewrite ?(alnum_okc xc Hxa), ?H1, ?H2, ?H3, ?H4, ?H6, ?(okc_alnums sfx Hsa). reflexivity.
   Qed.
 End HexFloats.
 
@@ -873,20 +821,21 @@ Qed.
 
 Example accept_hexfloat_instances :
   lex_one_ok (s "CONSTANT") (s "0x1.8p3") (s ";") = true /\ lex_one_ok (s "CONSTANT") (s "0XAp-2L") (s ";") = true /\
-  (* the suffix f is read as an exponent digit, still one clean token; dl is accepted although the recorded shape flags it *)
-  lex_one_ok (s "CONSTANT") (s "0x1p3f") (s ";") = true /\ lex_one_ok (s "CONSTANT") (s "0x1p3dl") (s ";") = true /\
-  hexfloat_sfx_bad (s "dl") = true /\ shape_hexfloat_hex_suffix (s "0x1p3dl") = true /\
-  (* the findings themselves are outside the hypotheses *)
-  hexfloat_sfx_bad (s "fi") = true /\ str_in (hexfloat_sfx_rem (s "fi")) float_suffixes = false /\
-  shape_hexfloat_empty_part (s "0x1.p3") = true /\ shape_hexfloat_empty_part (s "0x.8p1") = true.
+  (* the former findings: empty fraction, empty integer part, a suffix that starts with a hexadecimal letter and continues *)
+  lex_one_ok (s "CONSTANT") (s "0x1.p3") (s ";") = true /\ lex_one_ok (s "CONSTANT") (s "0x.8p1") (s ";") = true /\
+  lex_one_ok (s "CONSTANT") (s "0x1.8p3fi") (s ";") = true /\
+  shape_hexfloat_empty_part (s "0x1.p3") = true /\ shape_hexfloat_empty_part (s "0x.8p1") = true /\
+  shape_hexfloat_hex_suffix (s "0x1.8p3fi") = true.
 Proof.
   split; [apply lex_one_ok_of_u;
-          refine (accept_hexfloat_partial nouni nouni 120%N (s "1") (s ".8") 112%N [] 51%N [] [] (s ";") eq_refl eq_refl _ (or_intror (ex_intro _ (s "8") (conj eq_refl (conj eq_refl _)))) eq_refl eq_refl eq_refl eq_refl eq_refl eq_refl); discriminate|].
+          refine (accept_hexfloat nouni nouni 120%N (s "1") (s ".8") 112%N [] (s "3") [] (s ";") eq_refl (conj eq_refl (or_intror (ex_intro _ (s "8") (conj eq_refl (conj eq_refl (or_introl _)))))) eq_refl eq_refl eq_refl _ eq_refl eq_refl); discriminate|].
   split; [apply lex_one_ok_of_u;
-          refine (accept_hexfloat_partial nouni nouni 88%N (s "A") [] 112%N (s "-") 50%N [] (s "L") (s ";") eq_refl eq_refl _ (or_introl eq_refl) eq_refl eq_refl eq_refl eq_refl eq_refl eq_refl); discriminate|].
+          refine (accept_hexfloat nouni nouni 88%N (s "A") [] 112%N (s "-") (s "2") (s "L") (s ";") eq_refl (conj eq_refl (or_introl (conj eq_refl _))) eq_refl eq_refl eq_refl _ eq_refl eq_refl); discriminate|].
   split; [apply lex_one_ok_of_u;
-          refine (accept_hexfloat_partial nouni nouni 120%N (s "1") [] 112%N [] 51%N [] (s "f") (s ";") eq_refl eq_refl _ (or_introl eq_refl) eq_refl eq_refl eq_refl eq_refl eq_refl eq_refl); discriminate|].
+          refine (accept_hexfloat nouni nouni 120%N (s "1") (s ".") 112%N [] (s "3") [] (s ";") eq_refl (conj eq_refl (or_intror (ex_intro _ [] (conj eq_refl (conj eq_refl (or_introl _)))))) eq_refl eq_refl eq_refl _ eq_refl eq_refl); discriminate|].
   split; [apply lex_one_ok_of_u;
-          refine (accept_hexfloat_partial nouni nouni 120%N (s "1") [] 112%N [] 51%N [] (s "dl") (s ";") eq_refl eq_refl _ (or_introl eq_refl) eq_refl eq_refl eq_refl eq_refl eq_refl eq_refl); discriminate|].
+          refine (accept_hexfloat nouni nouni 120%N [] (s ".8") 112%N [] (s "1") [] (s ";") eq_refl (conj eq_refl (or_intror (ex_intro _ (s "8") (conj eq_refl (conj eq_refl (or_intror _)))))) eq_refl eq_refl eq_refl _ eq_refl eq_refl); discriminate|].
+  split; [apply lex_one_ok_of_u;
+          refine (accept_hexfloat nouni nouni 120%N (s "1") (s ".8") 112%N [] (s "3") (s "fi") (s ";") eq_refl (conj eq_refl (or_intror (ex_intro _ (s "8") (conj eq_refl (conj eq_refl (or_introl _)))))) eq_refl eq_refl eq_refl _ eq_refl eq_refl); discriminate|].
   vm_compute. repeat split; reflexivity.
 Qed.
